@@ -43,6 +43,10 @@ opn({'kind':'modifier-differs','effect':'make_elements_positive','after':'Q:calc
     "make_elements_positive trusts the metric slot, which stores validated (abs) values",
     "calculate_element_metrics(return_abs_metric=True, raise_negative_metric=False); make_elements_positive() sees only positive metrics and repairs nothing")
 for e in ('rotation','translation'):
+    opn({'kind':'stale-derive','effect':e,'memo_inventory':memo_pin},
+        f"femio/geometry_processor.py {e}: self.nodes.data[:, i] = ... changes the array but not the data frame FEMAttribute keeps next to it (.loc)",
+        f"{e}() then to_surface() / to_facets(): the derived mesh is built through nodes.loc and carries the coordinates from before the move (a freshly built equal mesh gives the moved ones)")
+for e in ('rotation','translation'):
     opn({'kind':'modifier-differs','effect':e,'after':'D:to_surface'},
         f"femio/geometry_processor.py {e}: self.nodes.data[:, i] += / = ... in place; the nodes of a to_surface() child are a read-only array (DataFrame.values)",
         f"to_surface() then {e}() on the surface mesh raises ValueError (assignment destination is read-only); on a freshly built equal mesh it moves the nodes")
@@ -54,6 +58,6 @@ for d,site in (('to_polyhedron','nodal_data=self.nodal_data'),('to_facets','noda
                ('to_first_order','elemental_data = self.elemental_data (and settings / materials / constraints)')):
     opn({'kind':'shared-table-modified','deriv':d},
         f"femio/fem_data.py {d}: {site}",
-        f"{d}() hands the parent's variable table object to the child: remove_useless_nodes() (or a writer that expands time series) on one of the two objects rewrites the other's variables, whose queries then raise or answer for the wrong node set")
+        f"{d}() hands the parent's variable table object (and the coordinate array) to the child: remove_useless_nodes() (or a writer that expands time series, or an in-place rotation / translation) on one of the two objects rewrites the other's data, whose queries then raise or answer for the wrong mesh")
 open('/verif/known_findings.d/C19.json','w').write(json.dumps(out,indent=1)+'\n')
 print(len(out), sum(1 for e in out if e['status']=='open'))
